@@ -38,3 +38,17 @@ Theorem C05_ambiguous :
       Permutation cands (keys (List.filter (pfx p) (n_opts (cur st)))).
 Proof. exact start_pair_ambiguous. Qed.
 Print Assumptions C05_ambiguous.
+
+(* ... and so is the whole command line: at any point where the parser is at the head of its loop
+   (not collecting values), writing the abbreviation or the full key gives the same result of Parse:
+   option values, Called, CalledAs, remaining, error and warnings *)
+Theorem C05_abbreviation_parse :
+  forall pf md lower ro specs root st0 pre rest st n1 n2 e k oid,
+    run pf md lower ro specs (init root st0) pre = Ok st -> ph st = PHead ->
+    n1 <> [] -> n2 <> [] -> contains_byte EQ n1 = false -> contains_byte EQ n2 = false ->
+    starts_with_eq_or_empty e ->
+    matches (n_opts (cur st)) n1 = [(k, oid)] -> matches (n_opts (cur st)) n2 = [(k, oid)] ->
+    parse pf md lower ro specs root st0 (pre ++ (DASH :: DASH :: n1 ++ e) :: rest) =
+    parse pf md lower ro specs root st0 (pre ++ (DASH :: DASH :: n2 ++ e) :: rest).
+Proof. exact abbreviation_parse. Qed.
+Print Assumptions C05_abbreviation_parse.
